@@ -200,13 +200,20 @@ class Case:
             base = [(-500.0, 500.0)] * dim
         else:
             base = [tuple(sorted((rng.uniform(-4, 0), rng.uniform(0.5, 4)))) for _ in range(dim)]
+            # special values on purpose: a face exactly at 0.0 (falsy), at +-1, at an integer
+            base = [((0.0, hi) if r < 0.2 else (lo, 0.0) if r < 0.3 else (-1.0, 1.0) if r < 0.35 else (lo, hi))
+                    for (lo, hi), r in ((b, rng.random()) for b in base)]
         bounds = []
         for lo, hi in base:
             k = self.boxkind if self.boxkind != "mixed" else rng.choice(["finite", "half", "infinite"])
             if k == "finite":
                 bounds.append((lo, hi))
             elif k == "half":
-                bounds.append((lo, None) if rng.random() < 0.5 else (None, hi))
+                openv = rng.choice([None, None, "inf"])           # scipy accepts None and +-inf for an open side
+                if rng.random() < 0.5:
+                    bounds.append((lo, None if openv is None else float("inf")))
+                else:
+                    bounds.append((None if openv is None else float("-inf"), hi))
             else:
                 bounds.append((None, None))
         self.bounds = bounds
@@ -214,7 +221,7 @@ class Case:
         if rng.random() < 0.2:           # start on the boundary
             j = rng.randrange(dim)
             side = rng.randrange(2)
-            if bounds[j][side] is not None:
+            if bounds[j][side] is not None and math.isfinite(bounds[j][side]):
                 x0[j] = bounds[j][side]
         self.x0 = x0
         self.conv_crit = rng.choice([1e-2, 1e-4, 1e-6, 1e-8, 1e-10])
@@ -349,7 +356,9 @@ def clauses(case: Case) -> tuple[str, str, dict] | None:
 
 
 def fmt_bounds(bounds) -> str:
-    return ",".join(f"{'none' if lo is None else frac(lo)}:{'none' if hi is None else frac(hi)}" for lo, hi in bounds)
+    # an infinite bound is an open side for the model, exactly as None is for scipy
+    op = lambda v: v is None or not math.isfinite(v)
+    return ",".join(f"{'none' if op(lo) else frac(lo)}:{'none' if op(hi) else frac(hi)}" for lo, hi in bounds)
 
 
 def fmt_vec(v) -> str:
